@@ -2,6 +2,8 @@
 package main
 
 import (
+	"go/ast"
+	"go/token"
 	"context"
 	"fmt"
 	"go/types"
@@ -299,6 +301,13 @@ func (w *World) replayBuffer(u *UnitResult, o *Oblig) (string, bool) {
 	if fn.Signature.Variadic() {
 		variadic = "..."
 	}
+	if o.Kind == "post" && o.clause != nil {
+		// a violated postcondition: call the real function and evaluate the clause on what it really returns
+		if src, ok := w.replayPost(fn, o, decl, call, variadic); ok {
+			return src, true
+		}
+		return "", false
+	}
 	src := fmt.Sprintf(`package %s
 
 // Generated by govc from the solver's counterexample for
@@ -357,4 +366,377 @@ func runOverlayTest(w *World, fn *ssa.Function, goFile string) (string, bool) {
 		s = s[:4000]
 	}
 	return s, failed
+}
+
+// ---------- replay of postconditions: contract clause -> Go ----------
+
+// specToGo translates a contract expression over parameters and results into Go source evaluating to bool (or to a
+// value). Integers are compared as *big.Int (helper I) so that int/uintN mixes mean what the mathematical clause means.
+type specGo struct {
+	w      *World
+	fn     *ssa.Function
+	types  map[string]types.Type
+	ok     bool
+	bound  map[string]bool
+	inOld  bool
+	slices map[string]bool
+}
+
+func (g *specGo) fail() string { g.ok = false; return "false" }
+
+func (g *specGo) typeOf(x ast.Expr) types.Type {
+	switch n := x.(type) {
+	case *ast.ParenExpr:
+		return g.typeOf(n.X)
+	case *ast.Ident:
+		if g.bound[n.Name] {
+			return types.Typ[types.Int]
+		}
+		return g.types[n.Name]
+	case *ast.SelectorExpr:
+		t := g.typeOf(n.X)
+		if t == nil {
+			return nil
+		}
+		if p, ok := under(t).(*types.Pointer); ok {
+			t = p.Elem()
+		}
+		if st, ok := under(t).(*types.Struct); ok {
+			for i := 0; i < st.NumFields(); i++ {
+				if st.Field(i).Name() == n.Sel.Name {
+					return st.Field(i).Type()
+				}
+			}
+		}
+	case *ast.IndexExpr:
+		t := g.typeOf(n.X)
+		if t == nil {
+			return nil
+		}
+		if sl, ok := under(t).(*types.Slice); ok {
+			return sl.Elem()
+		}
+		if isStr(t) {
+			return types.Typ[types.Uint8]
+		}
+	case *ast.BasicLit:
+		if n.Kind == token.INT {
+			return types.Typ[types.Int]
+		}
+	case *ast.BinaryExpr:
+		switch n.Op {
+		case token.ADD, token.SUB, token.MUL:
+			return types.Typ[types.Int]
+		}
+		return types.Typ[types.Bool]
+	case *ast.CallExpr:
+		if id, ok := n.Fun.(*ast.Ident); ok {
+			switch id.Name {
+			case "len", "le16at", "le32at", "le64at", "uint8", "uint16", "uint32", "uint64", "int", "int64", "wrap64", "umin", "umax":
+				return types.Typ[types.Int]
+			case "old":
+				if len(n.Args) == 1 {
+					return g.typeOf(n.Args[0])
+				}
+			case "ite":
+				if len(n.Args) == 3 {
+					return g.typeOf(n.Args[1])
+				}
+			}
+		}
+	}
+	return nil
+}
+
+func (g *specGo) isNum(x ast.Expr) bool {
+	t := g.typeOf(x)
+	return t != nil && isInt(t)
+}
+
+// num translates an integer-valued expression to a *big.Int Go expression.
+func (g *specGo) num(x ast.Expr) string {
+	switch n := x.(type) {
+	case *ast.ParenExpr:
+		return g.num(n.X)
+	case *ast.BasicLit:
+		return fmt.Sprintf("B(%q)", n.Value)
+	case *ast.BinaryExpr:
+		switch n.Op {
+		case token.ADD:
+			return fmt.Sprintf("add(%s, %s)", g.num(n.X), g.num(n.Y))
+		case token.SUB:
+			return fmt.Sprintf("sub(%s, %s)", g.num(n.X), g.num(n.Y))
+		case token.MUL:
+			return fmt.Sprintf("mul(%s, %s)", g.num(n.X), g.num(n.Y))
+		}
+		return "B(\"0\")" + g.fail()[:0]
+	case *ast.CallExpr:
+		if id, ok := n.Fun.(*ast.Ident); ok {
+			switch id.Name {
+			case "len":
+				return fmt.Sprintf("I(len(%s))", g.val(n.Args[0]))
+			case "le16at", "le32at", "le64at":
+				k := map[string]int{"le16at": 2, "le32at": 4, "le64at": 8}[id.Name]
+				return fmt.Sprintf("le(%s, %s, %d)", g.val(n.Args[0]), g.num(n.Args[1]), k)
+			case "uint8", "uint16", "uint32", "uint64", "wrap64":
+				bits := map[string]int{"uint8": 8, "uint16": 16, "uint32": 32, "uint64": 64, "wrap64": 64}[id.Name]
+				return fmt.Sprintf("wrapU(%s, %d)", g.num(n.Args[0]), bits)
+			case "int", "int64":
+				return fmt.Sprintf("wrapS(%s, 64)", g.num(n.Args[0]))
+			case "old":
+				o := g.inOld
+				g.inOld = true
+				r := g.num(n.Args[0])
+				g.inOld = o
+				return r
+			case "ite":
+				return fmt.Sprintf("iteB(%s, %s, %s)", g.boolE(n.Args[0]), g.num(n.Args[1]), g.num(n.Args[2]))
+			case "umin", "umax":
+				return fmt.Sprintf("%s(%s, %s)", id.Name, g.num(n.Args[0]), g.num(n.Args[1]))
+			}
+		}
+		g.ok = false
+		return "B(\"0\")"
+	}
+	return fmt.Sprintf("I(%s)", g.val(x))
+}
+
+// val translates a non-arithmetic value expression (identifier, field, element) to Go.
+func (g *specGo) val(x ast.Expr) string {
+	switch n := x.(type) {
+	case *ast.ParenExpr:
+		return g.val(n.X)
+	case *ast.Ident:
+		if n.Name == "nil" || n.Name == "true" || n.Name == "false" || g.bound[n.Name] {
+			return n.Name
+		}
+		if _, ok := g.types[n.Name]; !ok {
+			g.ok = false
+			return "nil"
+		}
+		if g.inOld && g.slices[n.Name] {
+			return "old_" + n.Name
+		}
+		return "v_" + n.Name
+	case *ast.SelectorExpr:
+		return g.val(n.X) + "." + n.Sel.Name
+	case *ast.IndexExpr:
+		return fmt.Sprintf("%s[idx(%s)]", g.val(n.X), g.num(n.Index))
+	case *ast.CallExpr:
+		if id, ok := n.Fun.(*ast.Ident); ok && id.Name == "old" && len(n.Args) == 1 {
+			o := g.inOld
+			g.inOld = true
+			r := g.val(n.Args[0])
+			g.inOld = o
+			return r
+		}
+	}
+	g.ok = false
+	return "nil"
+}
+
+func (g *specGo) boolE(x ast.Expr) string {
+	switch n := x.(type) {
+	case *ast.ParenExpr:
+		return "(" + g.boolE(n.X) + ")"
+	case *ast.UnaryExpr:
+		if n.Op == token.NOT {
+			return "!(" + g.boolE(n.X) + ")"
+		}
+	case *ast.BinaryExpr:
+		switch n.Op {
+		case token.LAND:
+			return "(" + g.boolE(n.X) + " && " + g.boolE(n.Y) + ")"
+		case token.LOR:
+			return "(" + g.boolE(n.X) + " || " + g.boolE(n.Y) + ")"
+		case token.EQL, token.NEQ, token.LSS, token.LEQ, token.GTR, token.GEQ:
+			if g.isNum(n.X) || g.isNum(n.Y) {
+				return fmt.Sprintf("(%s.Cmp(%s) %s 0)", g.num(n.X), g.num(n.Y), n.Op.String())
+			}
+			if n.Op == token.EQL || n.Op == token.NEQ {
+				tx, ty := g.typeOf(n.X), g.typeOf(n.Y)
+				if (tx != nil && isBoolT(tx)) || (ty != nil && isBoolT(ty)) {
+					return fmt.Sprintf("((%s) %s (%s))", g.boolE(n.X), n.Op.String(), g.boolE(n.Y))
+				}
+				return fmt.Sprintf("(%s %s %s)", g.val(n.X), n.Op.String(), g.val(n.Y))
+			}
+		}
+	case *ast.CallExpr:
+		if id, ok := n.Fun.(*ast.Ident); ok {
+			switch id.Name {
+			case "imp":
+				return "(!(" + g.boolE(n.Args[0]) + ") || " + g.boolE(n.Args[1]) + ")"
+			case "forall", "exists":
+				if len(n.Args) == 4 {
+					v, ok := n.Args[0].(*ast.Ident)
+					if !ok {
+						return g.fail()
+					}
+					g.bound[v.Name] = true
+					body := g.boolE(n.Args[3])
+					lo, hi := g.num(n.Args[1]), g.num(n.Args[2])
+					delete(g.bound, v.Name)
+					return fmt.Sprintf("quant(%v, %s, %s, func(%s int) bool { return %s })", id.Name == "forall", lo, hi, v.Name, body)
+				}
+			case "fresh":
+				return "true" // freshness of an allocation is not observable from a test
+			case "old":
+				o := g.inOld
+				g.inOld = true
+				r := g.boolE(n.Args[0])
+				g.inOld = o
+				return r
+			default:
+				if sf, ok := g.w.specFunc(id.Name); ok && len(sf.Params) == 0 {
+					return g.boolE(sf.Body)
+				}
+			}
+		}
+	case *ast.Ident:
+		if n.Name == "true" || n.Name == "false" {
+			return n.Name
+		}
+		return g.val(n)
+	}
+	return g.fail()
+}
+
+const replayHelpers = `
+type integer interface {
+	~int | ~int8 | ~int16 | ~int32 | ~int64 | ~uint | ~uint8 | ~uint16 | ~uint32 | ~uint64
+}
+
+func I[T integer](x T) *big.Int {
+	if x < 0 {
+		return big.NewInt(int64(x))
+	}
+	return new(big.Int).SetUint64(uint64(x))
+}
+func B(s string) *big.Int { n, _ := new(big.Int).SetString(s, 0); return n }
+func add(a, b *big.Int) *big.Int { return new(big.Int).Add(a, b) }
+func sub(a, b *big.Int) *big.Int { return new(big.Int).Sub(a, b) }
+func mul(a, b *big.Int) *big.Int { return new(big.Int).Mul(a, b) }
+func idx(a *big.Int) int {
+	if !a.IsInt64() {
+		panic("index out of the range of the clause")
+	}
+	return int(a.Int64())
+}
+func le(s []byte, off *big.Int, k int) *big.Int {
+	o := idx(off)
+	r := new(big.Int)
+	for i := k - 1; i >= 0; i-- {
+		r.Lsh(r, 8)
+		r.Or(r, big.NewInt(int64(s[o+i])))
+	}
+	return r
+}
+func wrapU(a *big.Int, bits uint) *big.Int {
+	m := new(big.Int).Lsh(big.NewInt(1), bits)
+	return new(big.Int).Mod(a, m)
+}
+func wrapS(a *big.Int, bits uint) *big.Int {
+	r := wrapU(a, bits)
+	if r.Bit(int(bits)-1) == 1 {
+		r.Sub(r, new(big.Int).Lsh(big.NewInt(1), bits))
+	}
+	return r
+}
+func iteB(c bool, a, b *big.Int) *big.Int {
+	if c {
+		return a
+	}
+	return b
+}
+func umin(a, b *big.Int) *big.Int { return iteB(a.Cmp(b) <= 0, a, b) }
+func umax(a, b *big.Int) *big.Int { return iteB(a.Cmp(b) >= 0, a, b) }
+func quant(all bool, lo, hi *big.Int, f func(int) bool) bool {
+	for i := idx(lo); i < idx(hi); i++ {
+		if f(i) != all {
+			return !all
+		}
+	}
+	return all
+}
+`
+
+func (w *World) replayPost(fn *ssa.Function, o *Oblig, decl, call []string, variadic string) (string, bool) {
+	g := &specGo{w: w, fn: fn, types: map[string]types.Type{}, ok: true, bound: map[string]bool{}, slices: map[string]bool{}}
+	var snap []string
+	for _, p := range fn.Params {
+		g.types[p.Name()] = p.Type()
+		if _, isSl := under(p.Type()).(*types.Slice); isSl {
+			g.slices[p.Name()] = true
+			snap = append(snap, fmt.Sprintf("\told_%s := append([]byte{}, %s...); _ = old_%s", p.Name(), p.Name(), p.Name()))
+		}
+	}
+	res := fn.Signature.Results()
+	var lhs, binds []string
+	for i := 0; i < res.Len(); i++ {
+		r := res.At(i)
+		v := fmt.Sprintf("v_r%d", i)
+		lhs = append(lhs, v)
+		g.types[fmt.Sprintf("r%d", i)] = r.Type()
+		if r.Name() != "" && r.Name() != "_" {
+			g.types[r.Name()] = r.Type()
+			binds = append(binds, fmt.Sprintf("\tv_%s := %s; _ = v_%s", r.Name(), v, r.Name()))
+		}
+		if res.Len() == 1 {
+			g.types["result"] = r.Type()
+			binds = append(binds, fmt.Sprintf("\tv_result := %s; _ = v_result", v))
+		}
+		if i == res.Len()-1 && isErrorType(r.Type()) {
+			if _, have := g.types["err"]; !have {
+				g.types["err"] = r.Type()
+				binds = append(binds, fmt.Sprintf("\tv_err := %s; _ = v_err", v))
+			}
+		}
+	}
+	if res.Len() == 0 {
+		return "", false
+	}
+	cond := g.boolE(o.clause.Expr)
+	if !g.ok {
+		return "", false
+	}
+	var pbinds []string
+	for _, p := range fn.Params {
+		pbinds = append(pbinds, fmt.Sprintf("\tv_%s := %s; _ = v_%s", p.Name(), p.Name(), p.Name()))
+	}
+	var uses []string
+	for _, l := range lhs {
+		uses = append(uses, "_ = "+l)
+	}
+	src := fmt.Sprintf(`package %s
+
+// Generated by govc from the solver's counterexample for
+//   %s
+// It calls the real function with the model's arguments and evaluates the violated contract clause
+//   %s
+// on what the function really returns; a false clause (or a panic) reproduces the violation.
+
+import (
+	"math/big"
+	"testing"
+)
+%s
+func TestGovcReplay(t *testing.T) {
+	defer func() {
+		if r := recover(); r != nil {
+			t.Fatalf("REPRODUCED: %%v", r)
+		}
+	}()
+%s
+%s
+	%s := %s(%s%s)
+	%s
+%s
+%s
+	if !(%s) {
+		t.Fatalf("REPRODUCED: the postcondition is false for this input; results: %%v", []interface{}{%s})
+	}
+}
+`, w.pkgOf(fn).Pkg.Name(), o.name, strings.Join(strings.Fields(o.clause.Src), " "), replayHelpers, strings.Join(decl, "\n"), strings.Join(snap, "\n"),
+		strings.Join(lhs, ", "), fn.Name(), strings.Join(call, ", "), variadic, strings.Join(uses, "; "), strings.Join(pbinds, "\n"), strings.Join(binds, "\n"), cond, strings.Join(lhs, ", "))
+	return src, true
 }
